@@ -229,6 +229,7 @@ func replayPO(ld *Loaded, po *sym.PO, st *sym.State, j Job, opt Options, res *sy
 	r.MaxPaths = 20000
 	rp := sym.NewPOReplay(po, res.Sched, "")
 	rp.NeedViolation = len(res.FailedEv) > 0
+	rp.CheckMaximal = res.Name == "quiescence"
 	func() {
 		defer func() {
 			if e := recover(); e != nil {
@@ -241,7 +242,9 @@ func replayPO(ld *Loaded, po *sym.PO, st *sym.State, j Job, opt Options, res *sy
 		return
 	}
 	res.ReplayLabels = rp.Labels
-	if rp.Complete {
+	if rp.Complete && rp.CheckMaximal && !rp.Maximal {
+		res.Replay = "schedule replayed, but the end state is not quiescent: " + rp.NotMaximal
+	} else if rp.Complete {
 		res.Replay = "ok"
 	} else {
 		res.Replay = fmt.Sprintf("schedule replay stopped after %d of %d events: %s", rp.Best, len(rp.Sched), rp.BestWhy)
